@@ -152,7 +152,9 @@ def recording(hy):
 
         def f(self, name):
             t = cur["t"]
-            if external(t):
+            # ScopeFn.__init__ defines the parameters on the not-yet-entered scope: those reach the
+            # machine as the `args` of the enter event, not as define events of the current scope
+            if external(t) and self.compiler.scope is self:
                 t.events.append(("define", str(name)))
             if t:
                 t.depth += 1
